@@ -36,7 +36,8 @@ def linecol(text, pos):
 
 # ------------------------------------------------------------------------------------- part 1
 
-REPS = {"l": "aZ;0\"(", "t": "\t\t\t\t\t\t", "n": "\n\n\n\n\n\n", "u": "αяé💾ç中", "s": "      "}
+# "f": characters that look like line breaks to some libraries but are ordinary characters of a line here (only LF ends a line)
+REPS = {"l": "aZ;0\"(", "t": "\t\t\t\t\t\t", "n": "\n\n\n\n\n\n", "u": "αяé💾ç中", "s": "      ", "f": "\x0c\x0b\r\x85\u2028\x1c"}
 
 
 def render_text(classes, variant):
@@ -68,7 +69,7 @@ def part1(run, max_len):
     run.add_tlc(res)
     if res.violated:
         run.violation(f"model: invariant {res.violated} violated in LineCol.tla", {"tail": res.tail[-2000:]})
-    expected = sum((k + 1) * 5 ** k for k in range(max_len + 1))
+    expected = sum((k + 1) * 6 ** k for k in range(max_len + 1))
     if res.n_exports != expected:
         raise MachineryError(f"LineCol exported {res.n_exports} (text, pos) pairs, expected {expected}")
     items = [(r["t"], r["p"], r["line"], r["col"]) for r in res.exports]
@@ -103,6 +104,8 @@ TRIVIA = [
     (";\tαβγ\t; tab inside a comment\n\n", "\t"),
     ("\t; indented comment\n \n", ""),
     ("", "  \t\t"),
+    ("; page\x0c break, \x0b, \x85 and \u2028 inside a comment\n", "\t"),
+    ("\t; separators \x1c\x1d\x1e inside a comment\n;\x0c\n", " "),       # (a lone CR is not used: files are read with universal newlines)
 ]
 SLOTS = {"first": 0, "middle": 3, "last": 6}                                  # quick: first / middle / last statement
 ALL_SLOTS = {"first": 0, "slot1": 1, "slot2": 2, "middle": 3, "slot4": 4, "slot5": 5, "last": 6}   # thorough: every position
@@ -194,6 +197,38 @@ def run_cli_case(case):
         rmtree(d)
 
 
+# Diagnostics that name two places in two different files (the culprit and an earlier, innocent definition).  The culprit is the
+# SECOND definition in link order / the branch; the files are named so that the culprit's file sorts before and after the other one.
+CROSS = [
+    ("cross-duplicate-export", "\tnop\ncx1:: nop\n", "\tnop\n\tnop\n⟦cx1::⟧ nop\n", "ic"),
+    ("cross-duplicate-constant", "\tnop\n\tnop\n\tnop\nck1 == 5\n", "ck1 = 7\n\t.extern ⟦ck1⟧\n", "ic"),
+    ("cross-second-link", "\t.link 3000\n\tnop\n", "\tnop\n\t⟦.link⟧ 4000\n", "ic"),
+    ("cross-sob-forward", "\tnop\n\tnop\n\tnop\n\tnop\n\tnop\nfw1:: nop\n", "\tnop\n\t⟦sob⟧ r0, fw1\n", "ci"),
+]
+CROSS_NAMES = [("a.mac", "b.mac"), ("b.mac", "a.mac"), ("main.mac", "second.mac"), ("zlib.mac", "main.mac")]
+
+
+def build_cross(ci, ni, via_include):
+    """culprit and innocent part in two files: linked side by side, or one including the other"""
+    name, innocent, culprit, order = CROSS[ci]
+    cname, iname = CROSS_NAMES[ni]
+    a = culprit.index("⟦")
+    text = culprit.replace("⟦", "").replace("⟧", "")
+    files = {cname: text, iname: innocent}
+    if not via_include:
+        infiles = [iname, cname] if order == "ic" else [cname, iname]
+    elif order == "ic":           # the culprit's file includes the innocent one on top
+        files[cname] = f'\t.include "{iname}"\n' + text
+        a += len(f'\t.include "{iname}"\n')
+        infiles = [cname]
+    else:                         # the culprit's file includes the innocent one at its end
+        files[cname] = text + f'\t.include "{iname}"\n'
+        infiles = [cname]
+    line, col = linecol(files[cname], a)
+    return {"kind": name, "sev": "error", "wclass": None, "where": "cross", "trivia": ni, "location": "include" if via_include else "linked",
+            "files": files, "infiles": infiles, "cfile": cname, "pos": a, "end": a, "line": line, "col": col}
+
+
 def sets_link(k):
     return any(".link" in t for t in (k.text,) + tuple(k.pre))
 
@@ -257,6 +292,15 @@ def main(run):
             for ti in range(len(TRIVIA)):
                 for li, location in enumerate(LOCATIONS):
                     cases.append(build_case(kind, where, ti, location))
+    n_cross = 0
+    for ci in range(len(CROSS)):
+        for ni in range(len(CROSS_NAMES)):
+            for via in (False, True):
+                if via and CROSS[ci][0] == "cross-second-link":
+                    continue              # '.link' inside an included file is left undefined
+                cases.append(build_cross(ci, ni, via))
+                n_cross += 1
+    run.note("cross_file_programs", n_cross)
     run.note("planted_programs", len(cases))
     run.note("fault_kinds", len(CATALOGUE))
     run.note("reconciled_designations", RECONCILED)
@@ -320,7 +364,7 @@ def main(run):
     if thorough:
         cli_cases = cases
     else:
-        cli_cases = [c for i, c in enumerate(cases) if (i + run.seed) % 4 == 0]
+        cli_cases = [c for i, c in enumerate(cases) if (i + run.seed) % 4 == 0 or c["where"] == "cross"]
     cres = pmap(run_cli_case, cli_cases)
     run.add_eval(len(cli_cases))
     n_cli_ok = 0
